@@ -184,6 +184,14 @@ func runC01(c *Ctx) {
 		c.Stat("faulty_backend_cases")
 		one(x)
 	}
+	// several READs in flight on one read+write handle, servers with the buffer allocator: many chunks of 2 KiB, the same transfer
+	// repeated (pages are lent and returned all the time; a page that returns too early is overwritten while it is being filled)
+	for i := 0; i < 60; i++ {
+		x := &xcase{api: []string{"readat", "writeto"}[i%2], p: 2048, conc: 2 + i%3, cr: true, cw: i%4 == 0, fst: i%3 == 0,
+			flen: 12289 + i%5, n: 12289 + i%5, off: 0, maxtx: 32768, src: "len", backend: []string{"reqalloc", "osalloc", "reqalloc"}[i%3], regular: true, ro: i%6 == 5}
+		c.Stat("allocator_many_chunk_reads")
+		one(x)
+	}
 	if c.Thorough() {
 		// default packet size, files larger than packet x maxConcurrent
 		for i := 0; i < 40; i++ {
